@@ -443,10 +443,10 @@ void AbstractDiscreteDistribution::discretizeEqualProportions()
       int f = ((values[i] + NumConstants::TINY()) >= intMinMax_->getUpperBound()) ? -1 : 1;
       while (distribution_.find(values[i] + f * j * precision()) != distribution_.end())
       {
-        // At most numberOfCategories_ - 1 keys are taken, each hiding a few steps on either side: if
-        // no free key has been found by now, steps of the precision are below the resolution of the
-        // values and the search would never end.
-        if (static_cast<size_t>(j) > 10 * (numberOfCategories_ + 1))
+        // A step of the precision may be far below the spacing of the doubles around the value
+        // (precision 1e-20 next to 1: some 1e4 steps per double), but when no free key has been
+        // found after 1e7 steps the values are too large for the search to end in any useful time.
+        if (j > 10000000)
           throw Exception("AbstractDiscreteDistribution::discretizeEqualProportions. Class values cannot be told apart at precision " + TextTools::toString(precision()) + ".");
         j++;
         f = ((values[i] + f * j * precision()) >= intMinMax_->getUpperBound()) ? -1 : 1;
